@@ -276,7 +276,71 @@ def async_case(case):
     return None
 
 
+def reuse_real_case(case):
+    """HISTORY on one real Local runner: a timely run under a long timeout, then a run that exceeds a short timeout
+    (must be killed and reported promptly), then again a timely run under a long timeout (normal outcome)"""
+    from invoke import Context, Config, Local
+    from invoke.exceptions import CommandTimedOut
+    r = Local(Context(Config()))
+    for i, (cmd, timeout, overrun) in enumerate(case["runs"]):
+        t0 = time.time()
+        try:
+            res = r.run(cmd, hide=True, in_stream=False, timeout=timeout, pty=case["pty"])
+        except CommandTimedOut:
+            dt = time.time() - t0
+            if not overrun:
+                return "[timely-but-timedout] run %d on one runner object (%r, timeout=%r) finished in time but was reported as timed out" % (i, cmd, timeout)
+            if dt > timeout + 1.2:
+                return "[timeout-late] run %d on one runner object (%r, timeout=%r): timed-out failure after %.2fs" % (i, cmd, timeout, dt)
+            continue
+        if overrun:
+            return "[timeout-not-raised] run %d on one runner object (%r, timeout=%r) ran past its timeout (%.2fs) and was not reported as timed out" % (
+                i, cmd, timeout, time.time() - t0)
+        if res.exited != 0:
+            return "wrong result on run %d" % i
+    return None
+
+
+def late_join_case(case):
+    """asynchronous run with a timeout, joined only AFTER the timeout has long elapsed: the clock starts with the
+    command, not with join() - the command must have been killed at its timeout (its later side effect never happens)"""
+    import tempfile
+    import shutil
+    from invoke import Context, Config
+    from invoke.exceptions import CommandTimedOut
+    d = tempfile.mkdtemp(prefix="c14-")
+    try:
+        marker = os.path.join(d, "late")
+        t0 = time.time()
+        p = Context(Config()).run("sleep 1.0; touch %s" % marker, asynchronous=True, timeout=0.3, pty=case["pty"], hide=True)
+        time.sleep(1.8)
+        try:
+            p.join()
+        except CommandTimedOut:
+            if os.path.exists(marker):
+                return "[timeout-not-killed] reported as timed out, yet the command ran on past its timeout (its later side effect happened)"
+            return None
+        finally:
+            dt = time.time() - t0
+        return "[timeout-not-raised] async command still running at its timeout (0.3s), joined at %.1fs: no timed-out failure%s" % (
+            dt, "; it ran to completion" if os.path.exists(marker) else "")
+    finally:
+        shutil.rmtree(d, ignore_errors=True)
+
+
 def replay(case):
+    if "reuse_real" in case:
+        try:
+            why = common.with_timeout(reuse_real_case, 60, case)
+        except common.Hang:
+            why = "[hang] the run did not return"
+        return why is None, why or "ok"
+    if "late_join" in case:
+        try:
+            why = common.with_timeout(late_join_case, 60, case)
+        except common.Hang:
+            why = "[hang] the run did not return"
+        return why is None, why or "ok"
     if "reuse" in case:
         try:
             why = common.with_timeout(reuse_case, 30, case)
@@ -323,6 +387,9 @@ def run(ctx):
     for pty in (False, True):
         for cmd in ("exit 3", "true"):
             extra.append({"async": True, "cmd": cmd, "pty": pty})
+        extra.append({"late_join": True, "pty": pty})
+        extra.append({"reuse_real": True, "pty": pty, "runs": [["true", 5, False], ["sleep 2", 0.3, True], ["echo fine", 5, False]]})
+        extra.append({"reuse_real": True, "pty": pty, "runs": [["sleep 2", 0.3, True], ["sleep 2", 0.3, True], ["true", 5, False]]})
     extra += []
     for pty in (False, True):
         for warn in (False, True):
@@ -332,7 +399,8 @@ def run(ctx):
     extra.append({"real": "grandchild"})
     for c in extra:
         out.case(c, True)
-        out.hist["extra:" + (c.get("src") and "source" or c.get("real") or ("reuse" if "reuse" in c else "async"))] += 1
+        out.hist["extra:" + (c.get("src") and "source" or c.get("real") or ("reuse" if "reuse" in c else "reuse_real" if "reuse_real" in c
+                             else "late_join" if "late_join" in c else "async"))] += 1
         try:
             ok, why = replay(c)
         except OSError as e:
